@@ -128,6 +128,22 @@ impl FxTracker {
             });
         }
 
+        if cad_fxt.amount.is_zero() || other_fxt.amount.is_zero() {
+            // No rate can be implied from a zero leg (and dividing by a zero
+            // foreign amount would panic).
+            return Err(SheetParseError::new(
+                fxt_row.row_num,
+                format!(
+                    "FXT on {} has a zero amount ({} {}, {} {})",
+                    other_fxt.trade_date,
+                    cad_fxt.amount,
+                    cad_fxt.currency,
+                    other_fxt.amount,
+                    other_fxt.currency
+                ),
+            ));
+        }
+
         let rate = (cad_fxt.amount / other_fxt.amount).abs();
 
         let tx = FxTracker::fx_tx(
